@@ -4,6 +4,7 @@ import (
 	"encoding/json"
 	"os"
 	"regexp"
+	"strings"
 )
 
 // Known is one entry of /verif/known_findings.json.
@@ -63,13 +64,18 @@ func MatchKnown(known []*Known, sc *Scenario, v *Violation) *Known {
 			continue
 		}
 		if k.Match.Attr != "" {
-			has := false
-			for _, a := range v.Attrs {
-				if a == k.Match.Attr {
-					has = true
+			// "a+b": every attribute named is required
+			all := true
+			for _, want := range strings.Split(k.Match.Attr, "+") {
+				has := false
+				for _, a := range v.Attrs {
+					if a == want {
+						has = true
+					}
 				}
+				all = all && has
 			}
-			if !has {
+			if !all {
 				continue
 			}
 		}
